@@ -1,7 +1,14 @@
 (* C14 Zero-length domains are inert (emission model; the re-reading theorems of C01 then give:
-   every strand still denotes flatB of its base list, which ignores zero-length members). *)
-From Coq Require Import List String.
-From PC Require Import Comp.Syntax Comp.Compile Comp.Denote Comp.EmitProofs Comp.DummyProofs.
+   every strand still denotes flatB of its base list, which ignores zero-length members).
+   The last clause of the property - no object the designer front-end or the finisher cannot process -
+   follows at component level from the composed C06 development, which never excludes zero-length
+   members: whatever the compiler accepts is accepted by the designer's loader, is seeded without
+   error, gets the over-constraint report or arrays, and for every designed string that fits the arrays
+   the records written let the finisher succeed (C14_designer_accepts, C14_finisher_accepts; the latter
+   under the distinct-record-names hypothesis of C06). *)
+From Coq Require Import List String Ascii.
+From PC Require Import Base.Codes Comp.Syntax Comp.Compile Comp.Denote Comp.EmitProofs Comp.DummyProofs
+  Design.Designer Design.Results Design.ResultsProofs Design.CrossProofs Design.EndToEnd Finish.Apply.
 Import ListNotations.
 
 Theorem C14_flat_ignores_dummy : forall c l1 x l2, base_len (c_bases c) (fst x) = 0 ->
@@ -35,3 +42,24 @@ Theorem C14_strands_reread : forall c, WF c ->
   map (fun '(n, t) => (c_prefix c +++ n, t_dummy t, Some (flatB c (s_base (t_sup t))), s_len (t_sup t))) (c_strands c).
 Proof. exact emit_strands. Qed.
 Print Assumptions C14_strands_reread.
+
+
+(* whatever is compiled - zero-length members included - the designer front-end and the finisher process it *)
+Theorem C14_designer_accepts : forall ctr prefix d body c ctr', compile_comp ctr prefix d body = OK (c, ctr') ->
+  (forall n b, In (n, b) (c_bases c) -> valid_template (b_const b) = true) ->
+  (exists p, load_spec (emit_comp c) pspec0 = OK p) /\
+  (design_arrays (emit_comp c) false = DOver \/ exists e w s, design_arrays (emit_comp c) false = DOk e w s).
+Proof. exact compiled_component_designs. Qed.
+Print Assumptions C14_designer_accepts.
+
+Theorem C14_finisher_accepts : forall ctr prefix d body c ctr',
+  compile_comp ctr prefix d body = OK (c, ctr') ->
+  (forall n b, In (n, b) (c_bases c) -> valid_template (b_const b) = true) ->
+  exists p lay g, load_spec (emit_comp c) pspec0 = OK p /\ seed p false = OK (lay, g) /\
+    (get_constraints p false = DOver \/
+     exists e w s, get_constraints p false = DOk e w s /\
+       forall nts, fits nts e w ->
+         exists a recs, process_results p lay nts = OK a /\ output_records p a = OK recs /\
+           (NoDup (map fst recs) -> exists f, apply_comp (table_of recs) c = OK f)).
+Proof. exact compiled_component_end_to_end. Qed.
+Print Assumptions C14_finisher_accepts.
